@@ -47,6 +47,7 @@ type World struct {
 	senderLog  []Value
 	envSteps   int
 	itoaSeen   []*Term
+	autoO2     string
 }
 
 func newWorld(ex *Exec) *World {
@@ -101,6 +102,7 @@ func (ex *Exec) assertObl(cond *Term, label string) {
 		h.mu.Unlock()
 		return
 	}
+	ex.sol.what = "assert " + label
 	r := ex.sat(ex.tt.Not(cond))
 	switch r {
 	case "unsat":
@@ -113,6 +115,32 @@ func (ex *Exec) assertObl(cond *Term, label string) {
 		h.noteUnknown(ex, "assert "+label)
 	}
 	ex.addPC(cond)
+}
+
+// assertGroup discharges several obligations with one query when they all hold.
+func (ex *Exec) assertGroup(parts []namedTerm, label string) {
+	var cs []*Term
+	for _, p := range parts {
+		cs = append(cs, p.t)
+	}
+	all := ex.tt.And(cs...)
+	ex.sol.what = "assert-group " + label
+	if all.IsTrue() || ex.sat(ex.tt.Not(all)) == "unsat" {
+		h := ex.H
+		h.mu.Lock()
+		h.obligations += len(parts)
+		h.discharged += len(parts)
+		for _, p := range parts {
+			h.oblLabels[label+":"+p.name]++
+		}
+		h.mu.Unlock()
+		ex.W.oblOnPath += len(parts)
+		ex.addPC(all)
+		return
+	}
+	for _, p := range parts {
+		ex.assertObl(p.t, label+":"+p.name)
+	}
 }
 
 func init() {
@@ -428,7 +456,7 @@ func init() {
 	})
 	vx("Havoc", func(ex *Exec, fr *Frame, a []Value, s ssa.Instruction) Value {
 		w := ex.W
-		w.db = ex.NewSymDB(w.schema, w.slots, fmt.Sprintf("db%d", len(w.snaps)))
+		w.db = ex.NewInvDB(w.schema, w.slots, fmt.Sprintf("db%d", len(w.snaps)))
 		ex.addPC(ex.Inv(w.db, w.now))
 		return nil
 	})
@@ -551,18 +579,14 @@ func init() {
 	vx("CheckInv", func(ex *Exec, fr *Frame, a []Value, s ssa.Instruction) Value {
 		db := ex.W.snaps[ex.concreteInt(a[0], "snapshot")]
 		label := ex.str(a[1], "label")
-		for _, c := range ex.InvParts(db, ex.W.now) {
-			ex.assertObl(c.t, label+":"+c.name)
-		}
+		ex.assertGroup(ex.InvParts(db, ex.W.now), label)
 		return nil
 	})
 	vx("CheckG", func(ex *Exec, fr *Frame, a []Value, s ssa.Instruction) Value {
 		pre := ex.W.snaps[ex.concreteInt(a[0], "snapshot")]
 		post := ex.W.snaps[ex.concreteInt(a[1], "snapshot")]
 		label := ex.str(a[2], "label")
-		for _, c := range ex.GParts(pre, post) {
-			ex.assertObl(c.t, label+":"+c.name)
-		}
+		ex.assertGroup(ex.GParts(pre, post), label)
 		return nil
 	})
 	vx("AssumeG", func(ex *Exec, fr *Frame, a []Value, s ssa.Instruction) Value {
